@@ -132,6 +132,8 @@ def cases(tier):
         yield ('Pbytes', i)
     for i in range(len(PESCAPE)):
         yield ('Pescape', i)
+    for i in range(len(PMODIFY)):
+        yield ('Pmodify', i)
     nt = len(trees(tier))
     for ti in range(nt):
         for oi in range(len(OPTIONS)):
@@ -152,6 +154,8 @@ def run(case) -> Result:
         return _pbytes(res, case)
     if case[0] == 'Pescape':
         return _pescape(res, case)
+    if case[0] == 'Pmodify':
+        return _pmodify(res, case)
     return _match(res, case)
 
 
@@ -318,6 +322,37 @@ def _pbytes(res, case):
 
 # the populated directory d already holds a symbolic link `lnk` to a directory OUTSIDE d; entries whose names pass through the link
 # (no `..`, not absolute: the name check accepts them) must not create anything outside d
+# appending to / modifying an existing file that the OS refuses to write: a HARD_ERROR of the instruction, like a failing creation
+PMODIFY = ["dir d += {\n file l += 'x'\n}", "file d/l += 'x'", "dir d += {\n dir sub = {\n  file inner = 'y'\n }\n file l += 'x'\n}"]
+
+
+def _pmodify(res, case):
+    instr = PMODIFY[case[1]]
+    if not os.path.exists('/proc/version'):
+        res.stats['no /proc/version on this system'] += 1
+        return res
+    w = world.get()
+    w.reset()
+    seam = procseam.SEAM
+    seam.reset()
+    seam.default = {'exit': 0}
+
+    def hook(rec):
+        if rec['name'] == 'mklinks':
+            os.symlink('/proc/version', os.path.join(rec['cwd'], 'd', 'l'))
+
+    seam.on_call = hook
+    text = "[setup]\ndir d\nrun % mklinks\n" + instr + '\n[act]\n'
+    o = cli.run_case(text)
+    res.n += 1
+    res.nontrivial += 1
+    res.outcomes[('Pmodify', o.ident)] += 1
+    if o.ident != 'HARD_ERROR' or o.rc != 128:
+        res.violation(case, ['`%s` where d/l is a link to a file the OS does not allow to be written (/proc/version): expected HARD_ERROR, got %s / %s' % (
+            instr.replace('\n', ' '), o.ident, ' / '.join(cli.stderr_lines(o.err)[-2:])[:300])], {'file': text})
+    return res
+
+
 PESCAPE = ["dir d += {\n file lnk/escaped.txt = 'x'\n}", 'dir d += {\n dir lnk/newdir\n}', "dir d += {\n file lnk/sub/deep.txt = 'x'\n}",
            "dir d += {\n dir lnk = {\n  file inner.txt = 'x'\n }\n}", 'dir d += dir-contents-of -rel-home esrc']
 
